@@ -1,10 +1,27 @@
-(* Props/C15.v — property C15 (work in progress stub; replaced below) *)
+(* Props/C15.v — property C15: header-chain tracking reports a heaviest chain whatever the arrival order;
+   index maps agree; add/remove ops replay.  Only statements; every proof is `exact <lemma>`.
+
+   The full statement is REFUTED on the current tree (three defect families, each with a witness history that
+   is replayed on the real BlockChain by harness/c15.py, see known/C15.txt).  What is proved without any bound
+   on sizes, for every pop order of `set.pop()` (priority list) and every set iteration order (preference):
+     * C15_finder_invariant_preserved — ChainFinder.load_nodes keeps the invariant of DESIGN.md appendix D
+       for every batch that does not bring a header earlier orphans were waiting for together with one of its
+       new descendants (Spec.ChainSpec.bad_batch = false; single-header batches and in-order batches are
+       special cases);
+     * C15_reported_is_heaviest — under that invariant `_longest_local_block_chain` returns a maximum-weight
+       chain from the anchor. *)
 From Coq Require Import List NArith ZArith Bool Lia.
-From PV Require Import Base.Outcome Model.Chain Spec.ChainSpec.
+From PV Require Import Base.Outcome Model.Chain Spec.ChainSpec
+  Proofs.ChainP Proofs.ChainFinderP Proofs.ChainBestP Proofs.ChainRefuteP.
 Import ListNotations.
 Local Open Scope N_scope.
 
+(* ------------------------------------------------------------------ the full statement *)
 Definition C15_statement : Prop :=
   forall (anchor : hash) (evs : list event), wf_headers anchor (all_headers evs) ->
   forall tr st, run anchor evs = (tr, st) ->
   (st = Done \/ st = OutOfRange) /\ good_trace anchor [] [] evs tr.
+
+Theorem C15_refuted : ~ C15_statement.
+Proof. exact refuted. Qed.
+Print Assumptions C15_refuted.
